@@ -14,9 +14,9 @@ meta = {
     'property': a.get('property', name.split('_')[0]),
     'origin': 'independent sub-agent given only the property text and a scratch worktree',
     'summary': a.get('summary'),
-    'needs_to_manifest': a.get('needs'),
-    'why_existing_tests_pass': a.get('why_tests_pass'),
-    'files_changed': a.get('files'),
+    'needs_to_manifest': a.get('needs') or a.get('needs_to_manifest'),
+    'why_existing_tests_pass': a.get('why_tests_pass') or a.get('why_existing_tests_pass'),
+    'files_changed': a.get('files') or a.get('files_changed'),
     'confirmed_here': {
         'existing_suite_with_change': '256 passed (env -u REPLICAT_VERIF /venv/bin/python -m pytest -q -p no:cacheprovider -x in the scratch worktree)',
         'demonstration': '%s: exit != 0 with the change, exit 0 without it (tools/seedverify.sh)' % demo,
